@@ -132,8 +132,10 @@ def nc_case(case):
 
 def contraction_case(case):
     """||A||inf <= 0.8  =>  solved within the DEFAULT iteration cap (400), whatever the start value and constant."""
-    a, tol, box = case
-    full = "x = %r*x + B\nErr_Tolerance = %r\nMaxTime = 1" % (a, tol)
+    a, tol, box = case[:3]
+    with_fn = len(case) > 3 and case[3] == 'fn'
+    # with_fn: the same map written through a user function registered with AddFunction (idf(v) = v)
+    full = ("x = %r*idf(x) + B\nErr_Tolerance = %r\nMaxTime = 1" if with_fn else "x = %r*x + B\nErr_Tolerance = %r\nMaxTime = 1") % (a, tol)
     D = Driver(timeout_ms=20000, max_paths=500000, max_seconds=BUDGET[1], abs_fork=True)
     b, x0 = z3.Real('B'), z3.Real('x0')
     D.assume(b >= -box, b <= box, x0 >= -box, x0 <= box)
@@ -141,6 +143,8 @@ def contraction_case(case):
 
     def path():
         es = EquationSolver(full, run_equation_reduction=True)
+        if with_fn:
+            es.AddFunction('idf', lambda v: v)
         es.Parser.Exogenous.append(('B', [0.0, SymReal(b)]))
         es.ExtractVariableList()
         es.SetInitialConditions()
@@ -153,6 +157,8 @@ def contraction_case(case):
             o = 'ConvergenceError'
         except ValueError:
             o = 'ValueError'
+        except Exception as e:         # anything else is not even one of the documented errors
+            o = 'crash:' + type(e).__name__
         out['outcomes'][o] = out['outcomes'].get(o, 0) + 1
         out['max_sweeps'] = max(out['max_sweeps'], len(es.TimeSeriesStepTrace['iteration']))
         if o != 'solved' and out['viol'] is None:
@@ -181,8 +187,8 @@ def nc_cases(tier):
 
 def contraction_cases(tier):
     if tier == 'quick':
-        return [(-0.8, 1e-3, 1000), (0.5, 1e-2, 100), (-0.5, 1e-3, 1000), (0.25, 1e-3, 100)]
-    return [(a, tol, 1000) for a in (0.8, -0.8, 0.5, -0.3, 0.79) for tol in (1e-3, 1e-5, 1e-8)]
+        return [(-0.8, 1e-3, 1000), (0.5, 1e-2, 100), (-0.5, 1e-3, 1000), (0.25, 1e-3, 100), (-0.5, 1e-3, 100, 'fn')]
+    return [(a, tol, 1000) for a in (0.8, -0.8, 0.5, -0.3, 0.79) for tol in (1e-3, 1e-5, 1e-8)] + [(-0.8, 1e-3, 1000, 'fn'), (0.5, 1e-5, 1000, 'fn')]
 
 
 # ---- enumerated invalid declarations ---------------------------------------------------------------------------------------------
@@ -389,16 +395,48 @@ REPLAY_CONTR = '''
 import sys
 from fractions import Fraction as F
 from sfc_models.equation_solver import EquationSolver
-a, tol, box = %(case)r
+case = %(case)r
+a, tol, box = case[:3]
+with_fn = len(case) > 3 and case[3] == 'fn'
 vals = {k: float(F(v)) for k, v in %(vals)r.items()}
-es = EquationSolver("x = %%r*x + B\\nErr_Tolerance = %%r\\nMaxTime = 1" %% (a, tol)); es.Parser.Exogenous.append(('B', [0.0, vals['B']]))
+es = EquationSolver(("x = %%r*idf(x) + B\\nErr_Tolerance = %%r\\nMaxTime = 1" if with_fn else "x = %%r*x + B\\nErr_Tolerance = %%r\\nMaxTime = 1") %% (a, tol))
+if with_fn: es.AddFunction('idf', lambda v: v)
+es.Parser.Exogenous.append(('B', [0.0, vals['B']]))
 es.ExtractVariableList(); es.SetInitialConditions(); es.TimeSeries['x'][0] = vals['x0']
 try:
     es.SolveStep(1)
-except ValueError as e:
+except Exception as e:
     print('contraction not solved within the default cap:', repr(e)); sys.exit(1)
 print('solved', es.TimeSeries['x']); sys.exit(0)
 '''
+
+FAR_STARTS = [(0.8, '1e6'), (0.8, '1e12'), (0.5, '1e30'), (0.5, '1e100'), (-0.8, '1e100'), (0.25, '1e30'), (-0.5, '-1e100')]
+
+
+def far_start_outcomes():
+    """The contraction clause says "always": start values far outside the symbolic boxes, concretely (x = a*x + 0.2 from x(0) = 1e6 ... 1e100 at the
+    default tolerance and the default cap).  Returns [(a, x0, outcome)], outcome 'solved' or the name of the exception."""
+    from sfc_models.equation_solver import EquationSolver
+    out = []
+    for a, x0 in FAR_STARTS:
+        es = EquationSolver('x = %r*x + 0.2\nx(0) = %s\nMaxTime = 1' % (a, x0))
+        try:
+            es.SolveEquation()
+            ok = abs(es.TimeSeries['x'][1] - 0.2 / (1 - a)) < 1e-5
+            out.append((a, x0, 'solved' if ok else 'solved-to-a-wrong-value %r' % es.TimeSeries['x'][1]))
+        except Exception as e:
+            out.append((a, x0, type(e).__name__))
+    return out
+
+
+REPLAY_FAR = '''
+import sys
+from vf.props.c11 import far_start_outcomes
+r = [x for x in far_start_outcomes() if x[0] == %(a)r and x[1] == %(x0)r][0]
+print('x = %%r*x + 0.2 from x(0) = %%s at the default tolerance and cap: %%s' %% r)
+sys.exit(0 if r[2] == 'solved' else 1)
+'''
+
 
 def float_error_outcomes():
     """Arithmetic errors that only binary floating point has (overflow of ** / exp, a complex result of a fractional power of a negative number), in a
@@ -496,14 +534,19 @@ def run(tier, seed):
             continue
         chk.count('paths', o['paths']); chk.count('forks', o['forks'])
         chk.solver_s += o['solver_s']; chk.queries += o['queries']
-        what = 'contraction x = %r*x + B, tol %g, |B|,|x0| <= %g, default cap: every path solved' % o['case']
+        what = 'contraction x = %r*x + B, tol %g, |B|,|x0| <= %g, default cap: every path solved' % o['case'][:3] + (' (map written through a user function)' if len(o['case']) > 3 else '')
         if not o['exhaustive'] or o['dunknown']:
             chk.ob('unknown', what + ' (exploration incomplete: paths %d, deepest %d sweeps, unknown %d)' % (o['paths'], o['max_sweeps'], o['dunknown']))
         else:
             chk.ob('sat' if o['viol'] else 'unsat', what, distinct=('contraction',) + tuple(o['case']))
         if o['viol'] and o['viol']['vals']:
-            chk.violation('contraction:%r' % (o['case'][0],), what + ': ' + o['viol']['why'], REPLAY_CONTR % dict(case=o['case'], vals=o['viol']['vals']))
+            chk.violation('contraction:%r%s' % (o['case'][0], ':user-function' if len(o['case']) > 3 else ''), what + ': ' + o['viol']['why'], REPLAY_CONTR % dict(case=o['case'], vals=o['viol']['vals']))
         chk.sample({'harness': what, 'paths': o['paths'], 'deepest_path_sweeps': o['max_sweeps'], 'outcomes': o['outcomes'], 'exhaustive': o['exhaustive']}, cap=16)
+    chk.bounds['contraction from far away'] = 'x = a*x + 0.2 from the start values %r, default tolerance and cap (concrete runs: the property says "always")' % (FAR_STARTS,)
+    for a, x0, outcome in far_start_outcomes():
+        chk.ob('unsat' if outcome == 'solved' else 'sat', 'contraction x = %r*x + 0.2 from x(0) = %s solved within the default cap' % (a, x0), distinct=('far-start', a, x0))
+        if outcome != 'solved':
+            chk.violation('contraction-far-start:%r:%s' % (a, x0), 'contraction x = %r*x + 0.2 from x(0) = %s at the default tolerance and cap: %s' % (a, x0, outcome), REPLAY_FAR % dict(a=a, x0=x0))
     decl = invalid_declarations()
     chk.counters['invalid_declaration_cases'] = len(decl)
     for label, exc, clean in decl:
